@@ -46,6 +46,10 @@ def make_device(d, rng):
                 out.append(data[pos:c])
                 pos = c
             return out
+        gaps = d.pop("chunk_gaps", None)
+        if gaps:
+            chunker.gap = lambda: int(r2.choice(gaps) * 1_000_000)
+    d.pop("chunk_gaps", None)
     unsol = [(t, l) for t, l in d.pop("unsolicited", [])]
     kw = dict(latency=latf, chunker=chunker, swallow_first=d.pop("swallow_first", 0), silent_after_replies=d.pop("silent_after", None),
               eof_after_bytes=d.pop("eof_after_bytes", None), unsolicited=unsol, drop_at=d.pop("drop_at", None))
@@ -75,6 +79,9 @@ class ConnSession:
         wf = self.spec.get("write_fault_after")
         if wf is not None:
             port.write_fault_after = wf
+        wl = self.spec.get("write_fault_late")
+        if wl:
+            port.write_fault_late = (wl["n"], wl.get("exc", "SerialException"))
         sw = self.spec.get("slow_writes")
         if sw:
             port.write_delay = lambda n, _sw=sw: _sw.get(str(n), 0)
